@@ -1,6 +1,6 @@
 ----------------------------- MODULE Trace_C17 -----------------------------
 (* C17 judge: the shape of every item of an accepted expansion, as read back by syn (type text without whitespace).
-   record [id, parse, non_impl_items, impls: Seq([path, args: Seq(STRING), self, self_ref, nfns, fn, inputs: Seq(STRING), output, assoc: Seq([name, ty]), other])]
+   record [id, parse, non_impl_items, declared_errs: Seq(STRING) (error types written in the input's fallible trait instructions), impls: Seq([path, args: Seq(STRING), self, self_ref, nfns, fn, inputs: Seq(STRING), output, assoc: Seq([name, ty]), other])]
    Shape(conv) is the documented item for each of the six traits (README "Trait instructions", o2o::traits). *)
 EXTENDS O2OSyntax, TLC, Json, IOUtils
 Rec == ndJsonDeserialize(IOEnv.TRACE)
@@ -14,13 +14,14 @@ MethodName(t) == CASE t = "From" -> "from" [] t = "TryFrom" -> "try_from" [] t =
 Res(ok, e) == "::core::result::Result<" \o ok \o "," \o e \o ">"
 SelfTy(im) == IF im.self_ref THEN "&" \o im.self_lt \o im.self ELSE im.self
 ErrOf(im) == IF Len(im.assoc) = 1 THEN im.assoc[1].ty ELSE "?"
-ImplSymptom(im) ==
+ImplSymptom(im, declared) ==
   LET t == TraitOfPath(im.path) IN
   IF t = "-" THEN "not_a_conversion_trait"
   ELSE IF Len(im.args) # 1 THEN "trait_arity"
   ELSE IF im.other # 0 THEN "extra_impl_items"
   ELSE IF im.nfns # 1 \/ im.fn # MethodName(t) THEN "wrong_method_set"
   ELSE IF IsFallibleT(t) /\ ~(Len(im.assoc) = 1 /\ im.assoc[1].name = "Error") THEN "error_type_missing"
+  ELSE IF IsFallibleT(t) /\ im.assoc[1].ty \notin declared THEN "error_type_is_not_a_declared_one"
   ELSE IF ~IsFallibleT(t) /\ Len(im.assoc) # 0 THEN "unexpected_associated_type"
   ELSE LET a == im.args[1]  e == ErrOf(im) IN
     CASE t = "From"            -> IF im.inputs = <<"value:" \o a>> /\ im.output = im.self /\ ~im.self_ref THEN "-" ELSE "wrong_signature"
@@ -32,7 +33,8 @@ ImplSymptom(im) ==
 Symptom(r) ==
   IF r.parse # "ok" THEN "output_does_not_parse"
   ELSE IF r.non_impl_items # 0 THEN "non_impl_item"
-  ELSE IF \E i \in DOMAIN r.impls : ImplSymptom(r.impls[i]) # "-" THEN ImplSymptom(r.impls[CHOOSE i \in DOMAIN r.impls : ImplSymptom(r.impls[i]) # "-"])
+  ELSE IF \E i \in DOMAIN r.impls : ImplSymptom(r.impls[i], {r.declared_errs[j] : j \in DOMAIN r.declared_errs}) # "-"
+       THEN ImplSymptom(r.impls[CHOOSE i \in DOMAIN r.impls : ImplSymptom(r.impls[i], {r.declared_errs[j] : j \in DOMAIN r.declared_errs}) # "-"], {r.declared_errs[j] : j \in DOMAIN r.declared_errs})
   ELSE "-"
 Init == l = 1
 Consume == /\ l <= Len(Rec)
